@@ -522,7 +522,7 @@ Proof.
   - exact (frags_outside _ Hop).
   - apply orb_false_iff in Hop as [Hop Hb]. apply orb_false_iff in Hop as [Hf Hn].
     rewrite (frags_outside _ Hf). unfold wf_schema_txn. apply negb_false_iff in Hmd. rewrite Hmd. cbn [andb].
-    destruct config_upsert as [[|]|]; try discriminate. destruct initial_bases as [[|]|]; try discriminate; reflexivity.
+    destruct config_upsert as [[|]|]; try discriminate; destruct initial_bases as [[|]|]; try discriminate; reflexivity.
   - apply andb_true_iff in Ht as [Hn Hr]. apply orb_false_iff in Hsub as [Sn Sr].
     rewrite (idxs_outside _ Hn Sn), (idxs_outside _ Hr Sr). reflexivity.
   - apply orb_false_iff in Hop as [Hnil Hg]. rewrite (groups_outside _ Hg), Ht, Hnil. cbn [andb negb].
